@@ -1005,6 +1005,10 @@ fn part_search(o: &mut Outcome, rng: &mut Rng, tier: &str) {
                 for _ in 0..reps {
                     let w = *rng.pick(GEN_WIDTHS);
                     let opt = rng.pick(GEN_OPTS).0;
+                    if known_dirty_shape(style, opt).is_some() {
+                        o.count("gen:known-dirty-shape-not-sampled");
+                        continue;
+                    }
                     let e = gen_elem(t, hi, style, w, opt);
                     if !dirty.contains(&e.id) && seen.insert(e.id.clone()) {
                         chosen.push(e);
@@ -1110,9 +1114,31 @@ fn part_search(o: &mut Outcome, rng: &mut Rng, tier: &str) {
     }
     let flat: Vec<Elem> = per.values().flatten().cloned().collect();
     let bad: HashSet<String> = measure(&flat, timeout).into_iter().map(|(id, _)| id).collect();
+    // the two known findings as hand-written inputs too (independent of the dirty list)
+    let fixed: Vec<(&str, Elem)> = vec![
+        ("W1", Elem { id: "probe|W1".into(), src: "struct S1 {\n    /* c03m1 alpha1 beta gamma */\n    /* c03m2 alpha2 beta gamma */\n    a: u32,\n}\n".into(), cfg: vec![("wrap_comments".into(), "true".into()), ("max_width".into(), "20".into())], ordered: true, context: None }),
+        ("W2", Elem { id: "probe|W2".into(), src: "fn p1( /* c03m1 alpha1 beta gamma */  // c03m2 alpha2 beta gamma\n    a: u32, b: u32, c: u32) {}\n".into(), cfg: vec![("wrap_comments".into(), "true".into()), ("max_width".into(), "25".into())], ordered: true, context: None }),
+    ];
+    for (k, e) in &fixed {
+        let r = measure(&[e.clone()], timeout);
+        o.probes.push(json!({"id": format!("C03-{}", k), "fails": !r.is_empty(), "what": format!("hand-written input of finding {}: {}", k, r.first().map(|x| x.1.clone()).unwrap_or_else(|| "comments preserved".into())), "detail": {"src": e.src, "config": cfg_text(&e.cfg)}}));
+    }
     for (k, v) in &per {
         let failing: Vec<&Elem> = v.iter().filter(|e| bad.contains(&e.id)).collect();
         o.probes.push(json!({"id": format!("C03-{}", k), "fails": !failing.is_empty(), "what": format!("{} of {} listed elements run; first failing: {}", failing.len(), v.len(), failing.first().map(|e| e.id.clone()).unwrap_or_default()), "detail": failing.first().map(|e| json!({"src": e.src, "config": cfg_text(&e.cfg)}))}));
+    }
+}
+
+/// W1: a block comment followed by a block comment on a later line, W2: `/* a */ // b` on one line — both
+/// re-flowed as ONE block comment by identify_comment under wrap_comments / normalize_comments (known
+/// findings C03-W1, C03-W2).  The seed-dependent generator stays away from these shapes; the elements of
+/// the universe measured dirty run as enumerated probes.
+fn known_dirty_shape(style: &str, opt: &str) -> Option<&'static str> {
+    let reflow = matches!(opt, "wrap" | "wrapnorm" | "norm");
+    match style {
+        "BB" if reflow => Some("W1"),
+        "BL" if reflow => Some("W2"),
+        _ => None,
     }
 }
 
@@ -1120,8 +1146,11 @@ fn part_search(o: &mut Outcome, rng: &mut Rng, tier: &str) {
 fn probe_group(id: &str) -> String {
     let p: Vec<&str> = id.split('|').collect();
     if p[0] == "g" && p.len() == 6 {
-        // no element of the generated universe is dirty on the pinned tree; one listed later gets a
-        // probe of its own template and position class
+        if let Some(f) = known_dirty_shape(p[3], p[5]) {
+            return f.to_string();
+        }
+        // any other listed element of the generated universe gets a probe of its own template and
+        // position class (none on the pinned tree)
         let tag = p[2].split(':').nth(1).unwrap_or("?");
         format!("gen-{}-{}", p[1], tag)
     } else {
